@@ -551,6 +551,17 @@ func (c *Ctx) genC05() {
 		}
 		c.idpValidateVia(reg, order, a, now, delay, c.chance(0.5), c.pick("", "", "host", "url", "forwarded"))
 	}
+	// the registry of the bundled server: "listed in that registered provider's metadata" means the metadata registered *now*
+	{
+		ents := []string{"https://spa.example.com/md", "https://spb.example.com/md", "https://spc.example.com/md"}
+		w := c.newIdpWorld()
+		pw := "pw-a"
+		w.putUser("alice", "alice@example.com", "Alice A", []string{"staff"}, &pw, nil)
+		w.putService("svc1", ents[0], true, false, nil)
+		w.registryMoveHistory(ents)
+		c.count("c05-registry", "re-registration-with-moved-endpoint")
+		w.flush()
+	}
 	m := 300
 	if !c.quick() {
 		m = 5000
